@@ -8,7 +8,7 @@ L1 (command file): the real check_execv_args / get_execv_args / startProcess / s
 against Model/Execv.lean, plus monitors for "NO_FILE or NOT_EXECUTABLE when it cannot exist or be executed".
 """
 import itertools, re
-from props import l2common, c13_execv
+from props import l2common, c13_execv, c13_twin
 import l2
 
 ID = 'C13'
@@ -370,6 +370,8 @@ def run(ctx):
     # the command-file clause (NO_FILE / NOT_EXECUTABLE): real check_execv_args / get_execv_args / startProcess / spawn over a virtual
     # file system, against Model/Execv.lean
     c13_execv.run(ctx)
+    # the group-wide forms against the single-process calls with the same arguments (twin worlds): statuses, moment of the answer, acts
+    c13_twin.run(ctx)
 
 
 def replay(ctx, data):
@@ -381,6 +383,9 @@ def replay(ctx, data):
         lines, facts = run_allfunc(procs, af['kwargs'], af.get('falsy', False))
         mon_allfunc(ctx, procs, af['kwargs'], facts, dict(allfunc=af))
         ctx.correspond('allfunc', [(allfunc_case_line(procs), ['invoke'] * len(lines))], [lines])
+        return
+    if isinstance(data.get('input'), dict) and 'group_twin' in data['input']:
+        c13_twin.replay(ctx, data)
         return
     if isinstance(data.get('input'), dict) and ('execv' in data['input'] or 'execv_check' in data['input']):
         c13_execv.replay(ctx, data)
